@@ -140,6 +140,10 @@ where
     }
 
     fn fetch_n(&self, n: usize) -> Option<NextChunk<T, impl ExactSizeIterator<Item = T>>> {
+        if n == 0 {
+            // nothing is requested: must not be mistaken for an exhausted source
+            return None;
+        }
         self.progress_and_get_begin_idx(n).and_then(|begin_idx| {
             // SAFETY: no other thread has the valid condition to iterate, they are waiting
             let iter = unsafe { self.mut_iter() };
